@@ -12,7 +12,11 @@ Direct oracle (implementation only, independent dump of the objects' attributes)
   t1 = export(e); e2 = import(t1); t2 = export(e2):  t1 == t2;  dump(e) == dump(e2) at the printed precision;
   representable => Engine.output_values of e and e2 are bit-identical on 8 input rows (an exception counts as an outcome);
   accepted variants of t1 (comments, blank lines, indentation, reordered / duplicated keys, non-canonical numerals)
-  reach a fixed point after one import/export cycle.
+  reach a fixed point after one import/export cycle;
+  component level: for every term, defuzzifier and activation method, configure(parameters()) on a second object of the
+  same class that carries other state (stale height, parameters, resolution, type, n, threshold) gives the same FLL text
+  and parameters() is a fixed point (the importer only ever configures fresh objects, so whole-engine round trips cannot
+  see a configure() that leaves state behind).
 
 Correspondence (model Model/Fll.v evaluated inside Coq at the token instance): the engine is converted to an
 `fll_engine` literal whose numbers are the printed tokens plus the implementation's Op.is_close(x, 1.0) bit;
@@ -789,6 +793,75 @@ def classify_text_change(e, d, tb):
     return "fll:export-not-fixed-point"
 
 
+def stale_twin(fl, obj, tb, engine):
+    """A second object of the same class that already carries DIFFERENT state (what configure() has to overwrite)."""
+    c = type(obj).__name__
+    if c in tb["shapes"]:
+        t = getattr(fl, c)(obj.name, **{p: 7.25 + i for i, p in enumerate(tb["shapes"][c])})
+        if c != "Constant":
+            t.height = 0.37
+        return t
+    if c == "Discrete":
+        return fl.Discrete(obj.name, [-3.5, 0.125, 4.5, 0.875], height=0.37)
+    if c == "Linear":
+        return fl.Linear(obj.name, [9.5, -8.25, 7.125, 6.0, 5.5], engine)
+    if c == "Function":
+        return fl.Function(obj.name, "7.25 + 1.0", engine)
+    if c in ("First", "Last"):
+        return getattr(fl, c)(7, 0.9375)
+    if c in ("Highest", "Lowest"):
+        return getattr(fl, c)(7)
+    if c == "Threshold":
+        return fl.Threshold("<" if obj.comparator.value != "<" else ">=", 0.9375)
+    if c in ("General", "Proportional"):
+        return getattr(fl, c)()
+    if c in ("WeightedAverage", "WeightedSum"):
+        return getattr(fl, c)("Tsukamoto" if obj.type.name != "Tsukamoto" else "TakagiSugeno")
+    return getattr(fl, c)(77 if obj.resolution != 77 else 78)       # integral defuzzifiers
+
+
+def component_oracle(fl, e, d, tb, violation, stats):
+    """Every parameters()/configure() pair on its own: configure(original.parameters()) on an object of the same class
+    that carries other state must yield the original's FLL text, and parameters() must be a fixed point of it.  (As the
+    importer does, configure is only called with a non-empty parameter text.)  The text round trip of whole engines cannot
+    see a configure() that keeps stale state, because the importer configures freshly constructed objects."""
+    exp = fl.FllExporter()
+    items = []
+    for v in list(e.input_variables) + list(e.output_variables):
+        for t in v.terms:
+            if type(t).__name__ in ("Constant", "Linear", "Function") and not is_close1(t.height):
+                continue                                   # attribute hack, outside the property (see check_engine)
+            items.append(("term", t, exp.term))
+    for v in e.output_variables:
+        if v.defuzzifier is not None:
+            items.append(("defuzzifier", v.defuzzifier, exp.defuzzifier))
+    for b in e.rule_blocks:
+        if b.activation is not None:
+            items.append(("activation", b.activation, exp.activation))
+    for kind, obj, text_of in items:
+        params = obj.parameters()
+        if not params:
+            continue
+        c = type(obj).__name__
+        stats["component_checks"][kind + ":" + c] = stats["component_checks"].get(kind + ":" + c, 0) + 1
+        want = text_of(obj)
+        try:
+            twin = stale_twin(fl, obj, tb, e)
+            twin.configure(params)
+            got, again = text_of(twin), twin.parameters()
+        except Exception as ex:
+            violation("fll:configure-raises", f"{c}.configure({params!r}) raises {type(ex).__name__}: {ex} (decimals={d})", {"component": want})
+            continue
+        if got != want or again != params:
+            h = getattr(obj, "height", 1.0) if kind == "term" else 1.0
+            if kind == "term" and not is_close1(h) and is_close1(float(fnum(h, d))):
+                sig = "fll:height-rounds-into-tolerance"
+            else:
+                sig = "fll:configure-keeps-stale-state"
+            violation(sig, f"{c}: configure({params!r}) on an object with other state gives {got!r} / parameters {again!r}, the original is {want!r} (decimals={d})",
+                      {"component": want, "configured": got})
+
+
 def check_engine(fl, rng, verdict, tb, e, d, meta, stats, cases, index):
     """Direct oracle on one engine + its correspondence cases."""
     nviol = 0
@@ -822,6 +895,7 @@ def check_engine(fl, rng, verdict, tb, e, d, meta, stats, cases, index):
         # height, so such engines are not "buildable from the registered types".  They are kept as correspondence-only
         # probes (the model mirrors what the printer does with the attribute) and never reach the violation oracle.
         probe = bool(heightless)
+        component_oracle(fl, e, d, tb, violation, stats)
         if probe:
             stats["correspondence_only_probes"] = stats.get("correspondence_only_probes", 0) + 1
             key = f"{heightless[0]}:" + ("import-raises-" + exc if e2 is None else "imported")
@@ -943,7 +1017,7 @@ def run(ctx, build, verdict, ev):
     tb = tables()
     n = ctx.n(300, 6000)
     stats = {"evaluations": 0, "representable": 0, "processed_ok": 0, "outcomes": {}, "variants": {}, "variant_accepted": 0,
-             "variant_rejected": {}, "violations": {}, "modes": {}, "decimals": {}, "classes": {}}
+             "variant_rejected": {}, "violations": {}, "modes": {}, "decimals": {}, "classes": {}, "component_checks": {}}
     cases, index = [], []
     seeds = engine_seeds(ctx, n)
     nviol = 0
@@ -995,7 +1069,8 @@ def run(ctx, build, verdict, ev):
                          "rows_where_the_original_raises_but_the_reimport_computes (float vs numpy.float64 parameters)": stats.get("original_raises_reimport_computes", 0),
                          "rejection_variants_accepted_by_the_importer": stats.get("variant_unexpectedly_accepted", 0),
                          "correspondence_only_probes (height attribute set on Constant/Linear/Function)": stats.get("correspondence_only_probes", 0),
-                         "probe_outcomes": stats.get("probe_outcomes", {})}
+                         "probe_outcomes": stats.get("probe_outcomes", {}),
+                         "component_configure_checks (configure(parameters()) on an object with stale state)": dict(sorted(stats["component_checks"].items()))}
     c["correspondence_mismatches"] = len(mism)
     c["oracle_violations"] = nviol
     c["samples"] = samples[:4]
